@@ -2192,6 +2192,9 @@ int cif_value_init_numb(cif_value_tp *n, double val, double su, int scale, int m
 
         if (locale != NULL) {
             locale = strdup(locale);
+            if (locale == NULL) {
+                SET_RESULT(CIF_MEMORY_ERROR);
+            }
         }
         if ((locale != NULL) && (setlocale(LC_NUMERIC, "C") != NULL)) {
             char *digit_buf = to_digits(val, scale);
@@ -2303,6 +2306,9 @@ int cif_value_autoinit_numb(cif_value_tp *numb, double val, double su, unsigned 
 
             if (locale != NULL) {
                 locale = strdup(locale);
+                if (locale == NULL) {
+                    result_code = CIF_MEMORY_ERROR;
+                }
             }
             if ((locale != NULL) && (setlocale(LC_NUMERIC, "C") != NULL)) {
                 char buf[BUF_SIZE];
